@@ -469,9 +469,12 @@ func reflectAll(file protoreflect.FileDescriptor, specs []*Spec) (lines []string
 		if ef, ok := fs.(*j5schema.EnumField); ok {
 			es := ef.Schema()
 			f.set("epfx", hexS(es.NamePrefix))
+			if d := es.Description(); d != "" {
+				f.set("edesc", hexS(d))
+			}
 			var o []string
 			for _, opt := range es.Options {
-				o = append(o, fmt.Sprintf("%s:%d", hexS(opt.Name()), opt.Number()))
+				o = append(o, fmt.Sprintf("%s:%d:%s", hexS(opt.Name()), opt.Number(), hexS(opt.Description())))
 			}
 			f.set("eopts", strings.Join(o, ","))
 		}
@@ -527,14 +530,24 @@ func declaredFlatFull(s *Spec, num int) *Flat {
 	f := declaredFlat(s, num)
 	if s.Kind == "enum" {
 		f.set("epfx", hexS(s.enumPrefix()))
+		if s.EDesc != nil && *s.EDesc != "" {
+			f.set("edesc", hexS(*s.EDesc))
+		}
 		o := []string{}
 		opts := s.EOpts
-		o = append(o, hexS("UNSPECIFIED")+":0")
-		if len(opts) > 0 && s.enumShort(opts[0]) == "UNSPECIFIED" {
-			opts = opts[1:]
+		descs := s.EODesc
+		if descs == nil {
+			descs = make([]string, len(opts))
 		}
+		// the zero option: declared explicitly (then with its own description) or implicit (none)
+		zeroDesc := ""
+		if len(opts) > 0 && s.enumShort(opts[0]) == "UNSPECIFIED" {
+			zeroDesc = descs[0]
+			opts, descs = opts[1:], descs[1:]
+		}
+		o = append(o, hexS("UNSPECIFIED")+":0:"+hexS(zeroDesc))
 		for i, n := range opts {
-			o = append(o, fmt.Sprintf("%s:%d", hexS(s.enumShort(n)), i+1))
+			o = append(o, fmt.Sprintf("%s:%d:%s", hexS(s.enumShort(n)), i+1, hexS(descs[i])))
 		}
 		f.set("eopts", strings.Join(o, ","))
 	}
@@ -565,6 +578,28 @@ func diffSignature(s *Spec, k, dv, rv string) string {
 	if s.Map && k == "lr" && rv == "~" {
 		// one class whatever the value type: the list rules are written on the entry's value field
 		return "schema-diff:map:value-list-rules:dropped"
+	}
+	if k == "eopts" || k == "edesc" {
+		// enum declaration reached through the field: numbering / names / descriptions of the options
+		what := "options"
+		if k == "edesc" {
+			what = "desc"
+		} else {
+			dp, rp := strings.Split(dv, ","), strings.Split(rv, ",")
+			if len(dp) == len(rp) {
+				same := true
+				for i := range dp {
+					da, ra := strings.SplitN(dp[i], ":", 3), strings.SplitN(rp[i], ":", 3)
+					if len(da) == 3 && len(ra) == 3 && (da[0] != ra[0] || da[1] != ra[1]) {
+						same = false
+					}
+				}
+				if same {
+					what = "option-desc"
+				}
+			}
+		}
+		return "schema-diff:enum:" + what + ":changed"
 	}
 	if k == "name" {
 		// one class per cardinality, whatever the type: the property's name itself
